@@ -749,13 +749,14 @@ def parseTokens (fuel : Nat) (tokens : List Token) : ParseOutcome :=
     | .err => .err
     | .oof => .outOfFuel
 
-/-- fuel that is always enough (see `parse_terminates_statement` in Theorems/C15.lean): the call
-depth of the recursive descent is bounded by a constant per token -/
-def fuelFor (tokens : List Token) : Nat := 16 * tokens.length + 64
+/-- fuel that is meant to be always enough (see `parse_terminates_statement` in Theorems/C15.lean):
+the call depth of the recursive descent is bounded by a constant per token, and every token —
+also those of expressions embedded in format strings, which are lexed and parsed recursively —
+spans at least one character of the source -/
+def fuelFor (code : List Char) : Nat := 32 * code.length + 64
 
 /-- `parse(code)` -/
 def parse (code : List Char) : ParseOutcome :=
-  let tokens := (stripComments (lex code)).1
-  parseTokens (fuelFor tokens) tokens
+  parseTokens (fuelFor code) (stripComments (lex code)).1
 
 end Noulith.Parse
